@@ -19,6 +19,81 @@ pub struct BSpec {
 	pub user_meta: Vec<(String, Vec<u8>)>,
 	pub values: Vec<Val>,
 	pub opts: WriteOpts,
+	/// a LONG file: (seed, n, size pattern) — `values` is left empty and derived by `expanded` (`val::gen_long_vals`)
+	#[serde(default)]
+	pub many: Option<(u64, u32, u8)>,
+}
+
+impl BSpec {
+	pub fn expanded(&self) -> std::borrow::Cow<'_, BSpec> {
+		match self.many {
+			None => std::borrow::Cow::Borrowed(self),
+			Some((seed, n, pattern)) => {
+				let env = Env::build(&self.schema);
+				std::borrow::Cow::Owned(BSpec { values: val::gen_long_vals(seed, &env, &self.schema, n, pattern), many: None, ..self.clone() })
+			}
+		}
+	}
+}
+
+/// A LONG reference-written file: hundreds of blocks, more than 65 535 objects in one block, long runs of blocks that
+/// hold no objects at all (legal; what some writers leave behind after a flush with nothing pending)
+pub fn gen_long_bspec(rng: &mut Rng, min_width_one: bool, max_n: u32) -> BSpec {
+	let huge_block = max_n > 70_000 && rng.chance(1, 5);
+	let schema = if huge_block {
+		match rng.below(4) {
+			0 if !min_width_one => Ty::Null,
+			1 => Ty::Boolean,
+			2 => Ty::Long,
+			_ => Ty::Int,
+		}
+	} else {
+		match rng.below(8) {
+			0 => Ty::Int,
+			1 => Ty::String,
+			2 => Ty::Bytes,
+			3 => Ty::Record { name: 0, fields: vec![(0, Ty::Int), (1, Ty::String)] },
+			4 => Ty::Union(vec![Ty::Null, Ty::String]),
+			5 => Ty::Array(Box::new(Ty::Int)),
+			6 if !min_width_one => Ty::Record { name: 1, fields: vec![] },
+			_ => Ty::Long,
+		}
+	};
+	let n = if huge_block {
+		let span = *rng.pick(&[40u64, 3_000, 70_000]);
+		65_530 + rng.below(span) as u32
+	} else {
+		match rng.below(4) {
+			0 => rng.below(3) as u32,
+			1 => 250 + rng.below(20) as u32,
+			2 => 257 + rng.below(300) as u32,
+			_ => 300 + rng.below(900) as u32,
+		}
+		.min(max_n)
+	};
+	let pattern = if huge_block { 0 } else { rng.below(7) as u8 };
+	let n = if matches!(pattern, 2 | 3 | 6) { n.min(400) } else { n };
+	let codec = container::gen_codec(rng, false);
+	let opts = WriteOpts {
+		seed: rng.next_u64(),
+		partition: if huge_block {
+			vec![]
+		} else {
+			match rng.below(3) {
+				0 => vec![1],
+				1 => vec![1 + rng.usize(3), 1, 2 + rng.usize(5)],
+				_ => vec![100 + rng.usize(200)],
+			}
+		},
+		meta_order_seed: 0,
+		omit_codec_key: false,
+		meta_split: false,
+		meta_negative_count: false,
+		datum_layout: Layout { seed: rng.next_u64(), split_blocks: rng.bool(), negative_counts: rng.bool(), pad_varints: 0 },
+		empty_blocks: false,
+		empty_run: if huge_block { 0 } else { *rng.pick(&[0u32, 0, 1, 3, 300, 3_000, 20_000]) },
+	};
+	BSpec { schema, codec, sync: container::gen_sync(rng), user_meta: vec![], values: vec![], opts, many: Some((rng.next_u64(), n, pattern)) }
 }
 
 #[derive(Clone, Debug, Serialize, Deserialize)]
@@ -165,6 +240,11 @@ impl Prop for C06 {
 			push_ops: true,
 			scale: 2,
 		};
+		if rng.chance(1, 300) {
+			// LONG files, both directions
+			let dir = if run % 2 == 0 { Dir::A(container::gen_long_spec(rng, &profile, 140_000)) } else { Dir::B(gen_long_bspec(rng, false, 140_000)) };
+			return Scn { dir, rk_seed: rng.next_u64(), only_kind: None, apache: true };
+		}
 		if run % 2 == 0 {
 			return Scn {
 				dir: Dir::A({
@@ -206,6 +286,7 @@ impl Prop for C06 {
 				pad_varints: 0,
 			},
 			empty_blocks: false,
+			empty_run: 0,
 		};
 		Scn {
 			dir: Dir::B(BSpec {
@@ -215,6 +296,7 @@ impl Prop for C06 {
 				user_meta: container::gen_user_meta(rng),
 				values,
 				opts,
+				many: None,
 			}),
 			rk_seed: rng.next_u64(),
 			only_kind: None,
@@ -227,6 +309,8 @@ impl Prop for C06 {
 		match &scn.dir {
 			Dir::A(spec) => {
 				container::count_scale(spec, &mut out);
+				let expanded = spec.expanded();
+				let spec = &*expanded;
 				let Some((file, model)) = write_clean(spec, "C06", &mut out) else {
 					return out;
 				};
@@ -274,6 +358,14 @@ impl Prop for C06 {
 				out.digest = d.get();
 			}
 			Dir::B(b) => {
+				if b.many.is_some() {
+					out.count("long_history", 1);
+				}
+				if b.opts.empty_run > 0 {
+					out.count("direction_b_run_of_blocks_without_objects", 1);
+				}
+				let expanded = b.expanded();
+				let b = &*expanded;
 				let env = Env::build(&b.schema);
 				let json = ast::to_json(&b.schema);
 				let file = match ref_container::write(&env, &b.schema, &json, b.codec, b.sync, &b.user_meta, &b.values, &b.opts) {
@@ -422,6 +514,22 @@ impl Prop for C06 {
 						apache: scn.apache,
 					})
 				};
+				if let Some((seed, n, pattern)) = b.many {
+					for nn in [n / 2, n.saturating_sub(n / 8 + 1), n.saturating_sub(1)] {
+						if nn < n {
+							let mut nb = b.clone();
+							nb.many = Some((seed, nn, pattern));
+							push(nb);
+						}
+					}
+				}
+				if b.opts.empty_run > 0 {
+					for r in [0, b.opts.empty_run / 2, b.opts.empty_run - 1] {
+						let mut nb = b.clone();
+						nb.opts.empty_run = r;
+						push(nb);
+					}
+				}
 				if !b.values.is_empty() {
 					let mut nb = b.clone();
 					nb.values.truncate(b.values.len() / 2);
